@@ -1,7 +1,7 @@
 /-
-  Props/C05_Brackets.lean — the string level of C05: `expand_brackets` (utils.py:214-241) on every bracket tree.
+  Props/C05_Brackets.lean — the string level of C05: `expand_brackets` (utils.py:215-242) on every bracket tree.
   Trees are `BItem` (Model/C05.lean): atoms (token texts without bracket or comma) and groups with an optional
-  factor given by its digit string.  No bound on depth, width, factors or text.
+  factor given by its digit string (value `parseNat`, 0 included).  No bound on depth, width, factors or text.
 -/
 import BitstringModel.Model.C05
 import BitstringModel.Proofs.C05_Brackets
@@ -9,50 +9,53 @@ import BitstringModel.Proofs.C05_Brackets
 namespace BM.C05
 open BM
 
-/-- What the code computes: for every well-formed bracket tree, `expand_brackets` applied to its one-line rendering
-    terminates within the model's fuel and returns the comma-joined flattening in which a group with factor `n`
-    is written `max n 1` times. -/
+/-- What the code returns, literally: for every well-formed bracket tree, `expand_brackets` applied to its one-line
+    rendering terminates within the model's fuel and returns the comma-joined pieces `flattenCode` — every group
+    with factor `n ≥ 1` written `n` times, a group with factor 0 leaving one empty piece. -/
 theorem expandBrackets_render (items : List BItem) (hne : items ≠ []) (hwf : BItem.wfList items = true) :
     expandBrackets (renderItems items) = .ok (joinComma (BItem.flattenCodeList items)) := by
-  sorry
+  exact expandBrackets_render' items hne hwf
 
-/-- the code's flattening is the specified one ("'n*(f)' equals f written n times") whenever no bracket group has factor 0 -/
-theorem flattenCode_eq_spec (items : List BItem) (h : BItem.noZeroFactorList items = true) :
-    BItem.flattenCodeList items = BItem.flattenSpecList items := by
-  sorry
+/-- the non-empty pieces of the code's output are exactly the specified flattening -/
+theorem flattenCode_filter (items : List BItem) (hwf : BItem.wfList items = true) :
+    (BItem.flattenCodeList items).filter (fun s => !s.isEmpty) = BItem.flattenSpecList items := by
+  exact flattenCode_filter_list items hwf
 
-/-- Clause "'n*(f)' equals f written n times" at the string level, on the region `zero_bracket_factor` excluded
-    (known finding): full statement would be without `hz`. -/
-theorem expandBrackets_render_partial (items : List BItem) (hne : items ≠ []) (hwf : BItem.wfList items = true)
-    (hz : BItem.noZeroFactorList items = true) :
-    expandBrackets (renderItems items) = .ok (joinComma (BItem.flattenSpecList items)) := by
-  sorry
+/-- Clause "formats compose / 'n*(f)' equals f written n times" at the string level, full strength (every factor,
+    0 included): splitting the expanded text at the commas and dropping empty tokens — which is what
+    `preprocess_tokens` does next — gives the specified flattening of the tree. -/
+theorem expandBrackets_tokens (items : List BItem) (hne : items ≠ []) (hwf : BItem.wfList items = true) :
+    ∃ s, expandBrackets (renderItems items) = .ok s ∧
+      (splitOnChar ',' s).filter (fun t => !t.isEmpty) = BItem.flattenSpecList items := by
+  refine ⟨_, expandBrackets_render' items hne hwf, ?_⟩
+  rw [splitOnChar_joinComma _ (flattenCodeList_atoms items hwf hne).1 (flattenCode_nocomma_list items hwf)]
+  exact flattenCode_filter_list items hwf
 
-/-- witness that the property fails outside the region: `0*(a)` expands to `a`, not to nothing -/
-theorem zero_factor_witness :
-    expandBrackets "0*(a)".toList = .ok "a".toList ∧
-    joinComma (BItem.flattenSpecList [.group (some "0".toList) [.atom "a".toList]]) = [] := by
-  sorry
-
-/-- `n*(f)` with `n ≥ 1` is `f` written `n` times, comma separated -/
-theorem expandBrackets_factor (ds : Str) (items : List BItem) (hne : items ≠ [])
-    (hwf : BItem.wf (.group (some ds) items) = true) (hn : 1 ≤ parseNat ds) :
-    expandBrackets (BItem.render (.group (some ds) items))
-      = .ok (joinComma (List.replicate (parseNat ds) (BItem.flattenCodeList items)).flatten) := by
-  sorry
+/-- `n*(f)` is `f` written `n` times, for every `n` -/
+theorem expandBrackets_factor (ds : Str) (items : List BItem)
+    (hwf : BItem.wf (.group (some ds) items) = true) :
+    ∃ s, expandBrackets (BItem.render (.group (some ds) items)) = .ok s ∧
+      (splitOnChar ',' s).filter (fun t => !t.isEmpty)
+        = (List.replicate (parseNat ds) (BItem.flattenSpecList items)).flatten := by
+  have hw : BItem.wfList [.group (some ds) items] = true := by simp [BItem.wfList, hwf]
+  obtain ⟨s, h1, h2⟩ := expandBrackets_tokens [.group (some ds) items] (by simp) hw
+  rw [renderItems_single] at h1
+  refine ⟨s, h1, ?_⟩
+  rw [h2]
+  simp [BItem.flattenSpecList, BItem.flattenSpec]
 
 /-- Unbalanced input: if the first opening bracket is never closed (the depth after it never returns to zero),
     `expand_brackets` raises ValueError. -/
 theorem expandBrackets_unbalanced (pre rest : Str) (hpre : '(' ∉ pre)
     (hopen : ∀ k, k ≤ rest.length → (rest.take k).count ')' < (rest.take k).count '(' + 1) :
     expandBrackets (pre ++ '(' :: rest) = .error .value := by
-  sorry
+  exact expandBrackets_unbalanced' pre rest hpre hopen
 
 /-- … also after any amount of well-formed material: a rendered tree followed by an unclosed group -/
 theorem expandBrackets_unbalanced_after (items : List BItem) (hne : items ≠ []) (hwf : BItem.wfList items = true) (rest : Str)
     (hopen : ∀ k, k ≤ rest.length → (rest.take k).count ')' < (rest.take k).count '(' + 1) :
     expandBrackets (renderItems items ++ ',' :: '(' :: rest) = .error .value := by
-  sorry
+  exact expandBrackets_unbalanced_after' items hne hwf rest hopen
 
 /-! ### non-vacuity -/
 
@@ -60,5 +63,10 @@ example : BItem.wfList [.atom "a".toList, .group (some "2".toList) [.atom "b".to
 example : renderItems [.atom "a".toList, .group (some "2".toList) [.atom "b".toList, .group none [.atom "c".toList]]] = "a,2*(b,(c))".toList := by decide
 example : joinComma (BItem.flattenSpecList [.atom "a".toList, .group (some "2".toList) [.atom "b".toList, .group none [.atom "c".toList]]])
     = "a,b,c,b,c".toList := by decide
+/-- factor 0: `a,0*(b),c` expands to `a,,c`, i.e. the tokens `a`, `c` -/
+example : renderItems [.atom "a".toList, .group (some "0".toList) [.atom "b".toList], .atom "c".toList] = "a,0*(b),c".toList ∧
+    joinComma (BItem.flattenCodeList [.atom "a".toList, .group (some "0".toList) [.atom "b".toList], .atom "c".toList]) = "a,,c".toList ∧
+    BItem.flattenSpecList [.atom "a".toList, .group (some "0".toList) [.atom "b".toList], .atom "c".toList] = ["a".toList, "c".toList] := by decide
+example : (∀ k, k ≤ "a,(b".toList.length → ("a,(b".toList.take k).count ')' < ("a,(b".toList.take k).count '(' + 1) := by decide
 
 end BM.C05
